@@ -35,7 +35,10 @@ use barter_instrument::{
     index::IndexedInstruments,
     instrument::{Instrument, InstrumentIndex},
 };
-use barter_integration::channel::{UnboundedRx, UnboundedTx, mpsc_unbounded};
+use barter_integration::{
+    Unrecoverable,
+    channel::{Tx, UnboundedRx, UnboundedTx, mpsc_unbounded},
+};
 use chrono::{DateTime, TimeZone, Utc};
 use std::{
     cell::{Cell, RefCell},
@@ -44,7 +47,44 @@ use std::{
 };
 
 pub type State = EngineState<DefaultGlobalData, DefaultInstrumentMarketData>;
-pub type Txs = MultiExchangeTxMap<UnboundedTx<ExecutionRequest>>;
+pub type Txs = MultiExchangeTxMap<TestTx>;
+
+/// The transmitter the generic `MultiExchangeTxMap<Tx>` is instantiated with: either the real
+/// `UnboundedTx` (its own `Tx` impl and its own error, untouched), or a transmitter that refuses every
+/// item with an error that is not `is_unrecoverable()` (what a full bounded channel would answer; the
+/// default `UnboundedTx` can never do that, the engine's `Recoverable(ExecutionChannelUnhealthy)` arm
+/// exists for every other `Tx`).
+#[derive(Debug, Clone)]
+pub enum TestTx {
+    Real(UnboundedTx<ExecutionRequest>),
+    Refusing(UnboundedTx<ExecutionRequest>),
+}
+
+#[derive(Debug)]
+pub enum TestTxError {
+    Real(<UnboundedTx<ExecutionRequest> as Tx>::Error),
+    Refused,
+}
+
+impl Unrecoverable for TestTxError {
+    fn is_unrecoverable(&self) -> bool {
+        match self {
+            TestTxError::Real(e) => e.is_unrecoverable(),
+            TestTxError::Refused => false,
+        }
+    }
+}
+
+impl Tx for TestTx {
+    type Item = ExecutionRequest;
+    type Error = TestTxError;
+    fn send<Item: Into<Self::Item>>(&self, item: Item) -> Result<(), Self::Error> {
+        match self {
+            TestTx::Real(tx) => tx.send(item).map_err(TestTxError::Real),
+            TestTx::Refusing(_) => Err(TestTxError::Refused),
+        }
+    }
+}
 pub type TestEngine = Engine<HistoricalClock, State, Txs, TestStrategy, TestRisk>;
 pub type Event = EngineEvent<DataKind>;
 
@@ -215,11 +255,14 @@ pub enum Link {
     Closed,
     /// no transmitter for the exchange (`None` in the map)
     Missing,
+    /// transmitter present, receiver alive, every send refused with a recoverable error
+    Unhealthy,
 }
 
 pub struct Built {
     pub engine: TestEngine,
-    /// receiver per exchange index (`None` when the link is `Closed` or `Missing`)
+    /// receiver per exchange index (`None` when the link is `Closed` or `Missing`; an `Unhealthy`
+    /// link keeps its receiver so that "nothing was delivered" is observed, not assumed)
     pub rxs: Vec<Option<UnboundedRx<ExecutionRequest>>>,
 }
 
@@ -245,13 +288,18 @@ pub fn build_engine(
         match link {
             Link::Healthy => {
                 let (tx, rx) = mpsc_unbounded();
-                txs.push((exchange.value, Some(tx)));
+                txs.push((exchange.value, Some(TestTx::Real(tx))));
+                rxs.push(Some(rx));
+            }
+            Link::Unhealthy => {
+                let (tx, rx) = mpsc_unbounded();
+                txs.push((exchange.value, Some(TestTx::Refusing(tx))));
                 rxs.push(Some(rx));
             }
             Link::Closed => {
                 let (tx, rx) = mpsc_unbounded::<ExecutionRequest>();
                 drop(rx);
-                txs.push((exchange.value, Some(tx)));
+                txs.push((exchange.value, Some(TestTx::Real(tx))));
                 rxs.push(None);
             }
             Link::Missing => {
